@@ -4,6 +4,7 @@ import (
 	"bytes"
 	"encoding/json"
 	"fmt"
+	"io"
 	"math"
 	"os"
 	"reflect"
@@ -233,6 +234,26 @@ func v1Tables(o *runObs) (map[string]plruntime.FuncCall, map[string]plruntime.Fu
 			return err
 		}
 	}
+	for _, name := range []string{"set_tag", "rename", "cast", "set_measurement", "trim", "uppercase", "url_decode", "replace", "strfmt"} {
+		name := name
+		orig := call[name]
+		call[name] = func(ctx *plruntime.Task, e *ast.CallExpr) *errchain.PlError {
+			err := orig(ctx, e)
+			if err == nil {
+				o.log = append(o.log, effect{Ev: "call", K: name})
+			}
+			return err
+		}
+	}
+	origPrintf := call["printf"]
+	call["printf"] = func(ctx *plruntime.Task, e *ast.CallExpr) *errchain.PlError {
+		var err *errchain.PlError
+		outp := captureStdout(func() { err = origPrintf(ctx, e) })
+		if outp != "" {
+			o.log = append(o.log, effect{Ev: "printf", K: outp})
+		}
+		return err
+	}
 	for _, name := range []string{"add_key", "drop_key"} {
 		name := name
 		orig := call[name]
@@ -246,6 +267,8 @@ func v1Tables(o *runObs) (map[string]plruntime.FuncCall, map[string]plruntime.Fu
 						k = e.Param[0].Identifier().Name
 					case ast.TypeStringLiteral:
 						k = e.Param[0].StringLiteral().Val
+					case ast.TypeAttrExpr:
+						k = e.Param[0].AttrExpr().String()
 					}
 				}
 				if k == "_" {
@@ -529,6 +552,10 @@ func logDiff(spec []map[string]any, got []effect, v2 bool) string {
 					return fmt.Sprintf("effect %d: probe arg %d: want dtype %s, got %s (%s)", i, j, kindDType(sv), g.Typs[j], showVal(g.Vals[j]))
 				}
 			}
+		case "printf":
+			if specBytes(s["s"]) != g.K {
+				return fmt.Sprintf("effect %d: printed %q, want %q", i, g.K, specBytes(s["s"]))
+			}
 		default:
 			if s["k"] != g.K {
 				return fmt.Sprintf("effect %d: %s key want %v got %s", i, g.Ev, s["k"], g.K)
@@ -536,6 +563,27 @@ func logDiff(spec []map[string]any, got []effect, v2 bool) string {
 		}
 	}
 	return ""
+}
+
+// captureStdout runs f with os.Stdout redirected to a pipe (printf writes there).
+func captureStdout(f func()) string {
+	old := os.Stdout
+	r, w, err := os.Pipe()
+	if err != nil {
+		f()
+		return ""
+	}
+	os.Stdout = w
+	done := make(chan string)
+	go func() {
+		var b bytes.Buffer
+		_, _ = io.Copy(&b, r)
+		done <- b.String()
+	}()
+	f()
+	_ = w.Close()
+	os.Stdout = old
+	return <-done
 }
 
 func compactJSON2(v any) string {
@@ -556,8 +604,12 @@ func ptDiff(spec map[string]any, pt *input.Point) string {
 	if pt == nil {
 		return ""
 	}
-	if spec["meas"] != pt.Measurement {
-		return fmt.Sprintf("measurement want %v got %q", spec["meas"], pt.Measurement)
+	wantMeas, isStr := spec["meas"].(string)
+	if !isStr {
+		wantMeas = specBytes(spec["meas"]) // set by the script: a byte sequence
+	}
+	if wantMeas != pt.Measurement {
+		return fmt.Sprintf("measurement want %q got %q", wantMeas, pt.Measurement)
 	}
 	ks, _ := spec["ks"].([]any)
 	es, _ := spec["es"].([]any)
@@ -770,7 +822,7 @@ func replayMachine(args []string) (any, error) {
 		return nil, err
 	}
 	sum := &Summary{Extra: map[string]any{}}
-	cancelRuns, hangs := 0, 0
+	cancelRuns, hangs, nUnspec := 0, 0, 0
 	for _, id := range order {
 		ps := progs[id]
 		if ps == nil {
@@ -820,6 +872,16 @@ func replayMachine(args []string) (any, error) {
 		}
 		if base.loadErr != nil {
 			miss("load", map[string]any{"load_error": base.loadErr.Error(), "note": "the spec expects this program to load"})
+			continue
+		}
+		unspecified := false
+		for _, o := range unint {
+			if strings.HasPrefix(o.Err.Cls, "unspec") {
+				unspecified = true
+			}
+		}
+		if unspecified { // the model leaves this program's outcome open (an unmodelled engine / formatting): only "no crash" is demanded
+			nUnspec++
 			continue
 		}
 		var matched *specOutcome
@@ -940,6 +1002,7 @@ func replayMachine(args []string) (any, error) {
 		}
 	}
 	sum.Extra["cancel_runs"] = cancelRuns
+	sum.Extra["unspecified_by_model"] = nUnspec
 	return sum, nil
 }
 
